@@ -157,6 +157,11 @@ func (m *MuxBroker) Run() {
 		select {
 		case p.ch <- stream:
 		default:
+			// A connection for this ID is already pending. Refuse this one so
+			// that its dialer gets an error instead of waiting forever for an
+			// ack that can never come.
+			stream.Close()
+			continue
 		}
 
 		// Wait for a timeout
@@ -202,6 +207,8 @@ func (m *MuxBroker) timeoutWait(id uint32, p *muxBrokerPending) {
 		select {
 		case s := <-p.ch:
 			s.Close()
+		default:
+			// Accept picked the connection up just as the timer fired.
 		}
 	}
 }
